@@ -88,6 +88,26 @@ static inline U_t sg_count(unsigned int sigma, struct vec_lit ls)
   return c;
 }
 
+/* number of distinct literals of ls that are undecided under A */
+static inline U_t sp_open_count(struct vec_us A, struct vec_lit ls)
+{
+  U_t distinct = 0;
+  for (U_t i = 0; i < XT_MAXLITS; i++)
+    if (i < ls.n && sp_val(A, ls.e[i]) == SP_UNDEF)
+    {
+      _Bool dup = 0;
+      for (U_t j = 0; j < XT_MAXLITS; j++)
+        if (j < i && ls.e[j].x == ls.e[i].x) dup = 1;
+      if (!dup) distinct++;
+    }
+  return distinct;
+}
+static inline _Bool sp_any_root_true(struct vec_us A, struct vec_lit ls)
+{
+  for (U_t i = 0; i < XT_MAXLITS; i++)
+    if (i < ls.n && sp_val(A, ls.e[i]) == SP_TRUE) return 1;
+  return 0;
+}
 /* status of a clause under A, as new_clause must see it:
  *   0 falsified (no literal can be true)      1 satisfied by A, or a tautology among the undecided literals
  *   2 unit (exactly one distinct undecided literal, none true)       3 open (>= 2 distinct undecided literals) */
